@@ -106,4 +106,94 @@ theorem parseRequestLine_canon {m u v : Bytes} (hm : methods.contains m = true) 
   have hm' : m ∈ methods := by simpa using hm
   simp [hne, splitWs_three hmt hu hv, nth, hver, hm']
 
+/-! ### chunk size lines: hexadecimal digits -/
+
+/-- lower-case hexadecimal digit character of a value below 16 -/
+def hexChar (d : Nat) : Nat := if d < 10 then 48 + d else 87 + d
+
+def hexValue (ds : List Nat) : Nat := ds.foldl (fun a d => a * 16 + d) 0
+
+theorem digitVal_hexChar {d : Nat} (h : d < 16) : digitVal 16 (hexChar d) = some d := by
+  unfold digitVal hexVal hexChar
+  by_cases h10 : d < 10
+  · have h1 : 48 ≤ 48 + d ∧ 48 + d ≤ 57 := by omega
+    simp [h10, h1, h]
+  · have h1 : ¬ (48 ≤ 87 + d ∧ 87 + d ≤ 57) := by omega
+    have h2 : 97 ≤ 87 + d ∧ 87 + d ≤ 102 := by omega
+    have h3 : 87 + d - 87 = d := by omega
+    simp [h10, h1, h2, h3, h]
+
+theorem digitsB_hex : ∀ (ds : List Nat) (acc cnt : Nat), (∀ d ∈ ds, d < 16) → 0 < cnt + ds.length →
+    digitsB 16 (ds.map hexChar) acc cnt false =
+      some (ds.foldl (fun a d => a * 16 + d) acc, cnt + ds.length) := by
+  intro ds
+  induction ds with
+  | nil => intro acc cnt _ h; simp at h; simp [digitsB]; omega
+  | cons d ds ih =>
+    intro acc cnt hd _
+    simp only [List.map_cons, digitsB, digitVal_hexChar (hd d (by simp)), List.foldl_cons]
+    rw [ih _ _ (fun x hx => hd x (by simp [hx])) (by omega)]
+    simp; omega
+
+theorem hexChar_not_special {d : Nat} (h : d < 16) :
+    isAsciiWs (hexChar d) = false ∧ hexChar d ≠ 59 ∧ hexChar d ≠ 45 ∧ hexChar d ≠ 43 ∧
+    hexChar d ≠ 120 ∧ hexChar d ≠ 88 ∧ hexChar d < 128 := by
+  unfold hexChar isAsciiWs
+  by_cases h10 : d < 10
+  · simp only [h10, if_true]
+    refine ⟨?_, ?_, ?_, ?_, ?_, ?_, ?_⟩ <;> (try simp) <;> omega
+  · simp only [h10, if_false]
+    refine ⟨?_, ?_, ?_, ?_, ?_, ?_, ?_⟩ <;> (try simp) <;> omega
+
+theorem partition_absent {sep : Nat} {s : Bytes} (h : ∀ b ∈ s, b ≠ sep) : partition sep s = (s, false, []) := by
+  induction s with
+  | nil => rfl
+  | cons c s ih =>
+    have hc := h c (by simp)
+    simp [partition, hc, ih (fun b hb => h b (by simp [hb]))]
+
+theorem stripWith_id {p : Nat → Bool} {s : Bytes} (h : ∀ b ∈ s, p b = false) : stripWith p s = s := by
+  have ht : trimmed p s := ⟨fun x hx => h x (List.mem_of_mem_head? hx), fun x hx => h x (List.mem_of_mem_getLast? hx)⟩
+  have := stripWith_pad (p := p) (a := []) (b := []) (v := s) (by simp) (by simp) ht
+  simpa using this
+
+/-- **Chunk size line**: the size written in lower-case hexadecimal digits (no extension) is read
+as that number. -/
+theorem chunkLine_hex {ds : List Nat} (hne : ds ≠ []) (hd : ∀ d ∈ ds, d < 16) :
+    chunkLine (ds.map hexChar) = .ok ((hexValue ds : Int), []) := by
+  have hs : ∀ b ∈ ds.map hexChar, isAsciiWs b = false ∧ b ≠ 59 ∧ b ≠ 45 ∧ b ≠ 43 ∧ b ≠ 120 ∧ b ≠ 88 ∧ b < 128 := by
+    intro b hb
+    obtain ⟨d, hdm, rfl⟩ := List.mem_map.mp hb
+    exact hexChar_not_special (hd d hdm)
+  unfold chunkLine
+  rw [partition_absent (fun b hb => (hs b hb).2.1)]
+  have hstrip : bstrip (ds.map hexChar) = ds.map hexChar := stripWith_id (fun b hb => (hs b hb).1)
+  simp only [hstrip]
+  have hany : (ds.map hexChar).any (fun b => decide (128 ≤ b)) = false := by
+    rw [List.any_eq_false]; intro b hb; have := (hs b hb).2.2.2.2.2.2; simp; omega
+  simp only [hany, Bool.false_eq_true, if_false]
+  -- int(s, 16)
+  have hint : pyIntHex (ds.map hexChar) = some (hexValue ds : Int) := by
+    unfold pyIntHex
+    have h1 : stripWith isAsciiWs (ds.map hexChar) = ds.map hexChar := hstrip
+    simp only [h1]
+    cases hds : ds with
+    | nil => exact absurd hds hne
+    | cons d0 dr =>
+      have h0 := hs (hexChar d0) (by simp [hds])
+      have hsign : takeSign (hexChar d0 :: dr.map hexChar) = (false, hexChar d0 :: dr.map hexChar) := by
+        simp [takeSign, h0.2.2.1, h0.2.2.2.1]
+      have hpre : dropHexPrefix (hexChar d0 :: dr.map hexChar) = hexChar d0 :: dr.map hexChar := by
+        cases dr with
+        | nil => rfl
+        | cons d1 dr' =>
+          have h1' := hs (hexChar d1) (by simp [hds])
+          simp [dropHexPrefix, h1'.2.2.2.2.1, h1'.2.2.2.2.2.1]
+      simp only [List.map_cons, hsign, hpre]
+      have := digitsB_hex (d0 :: dr) 0 0 (by rw [← hds]; exact hd) (by simp)
+      simp only [List.map_cons] at this
+      rw [this]
+      simp [hexValue]
+  simp [hint]
+
 end Ioflo.Http
